@@ -100,6 +100,9 @@ func (g *FnGen) renderBodyOpt(upTo int, model bool, dropQuant bool) string {
 				}
 			} else if i == upTo {
 				for _, x := range it.Extras {
+					if dropQuant && strings.Contains(x, "(forall ") {
+						continue
+					}
 					fmt.Fprintf(&b, "(assert %s)\n", x)
 				}
 				fmt.Fprintf(&b, "(assert %s)\n(assert %s)\n(check-sat)\n", it.Guard, not(it.Fact))
